@@ -121,6 +121,8 @@ type VC struct {
 	loopFrames []loopFrame
 	memInfo    map[string]memStore
 	obAsserts  map[int]bool // assertions that restate an earlier obligation
+	seenRef    map[string]bool
+	seenRefs   []string
 	constGlobalVals map[string]Val
 }
 
@@ -472,6 +474,19 @@ func (vc *VC) inFrame(ref, lo, hi string) string {
 
 func (vc *VC) tid(t types.Type) int { return vc.eng.tid(t) }
 
+// noteRef remembers object references seen so far (ground instances of havoc axioms are
+// generated for them).
+func (vc *VC) noteRef(r string) {
+	if r == "" || r == "0" || !isAtom(r) || vc.seenRef[r] {
+		return
+	}
+	if vc.seenRef == nil {
+		vc.seenRef = map[string]bool{}
+	}
+	vc.seenRef[r] = true
+	vc.seenRefs = append(vc.seenRefs, r)
+}
+
 func (vc *VC) allocObj(st *State, t types.Type, zero bool) PtrV {
 	ref := vc.def("obj", "Int", st.top)
 	st.top = vc.def("top", "Int", fmt.Sprintf("(+ %s 1)", ref))
@@ -505,6 +520,7 @@ func (vc *VC) wf(st *State, v Val, t types.Type) string {
 	switch u := t.Underlying().(type) {
 	case *types.Pointer:
 		p := v.(PtrV)
+		vc.noteRef(p.ref)
 		cs := []string{fmt.Sprintf("(>= %s 0)", p.ref), fmt.Sprintf("(< %s %s)", p.ref, st.top), implies(eq(p.ref, "0"), eq(p.idx, "0")), fmt.Sprintf("(>= %s 0)", p.idx)}
 		if vc.eng.wholeObjectType(u.Elem()) {
 			cs = append(cs, implies(fmt.Sprintf("(> %s 0)", p.ref), and(fmt.Sprintf("(= (typ %s) %d)", p.ref, vc.tid(u.Elem())), eq(p.idx, "0"))))
@@ -524,6 +540,7 @@ func (vc *VC) wf(st *State, v Val, t types.Type) string {
 		return and(fmt.Sprintf("(>= %s 0)", i.tag), implies(eq(i.tag, "0"), eq(i.box, "0")))
 	case *types.Map:
 		m := v.(MapV)
+		vc.noteRef(m.ref)
 		return and(fmt.Sprintf("(>= %s 0)", m.ref), fmt.Sprintf("(< %s %s)", m.ref, st.top), implies(fmt.Sprintf("(> %s 0)", m.ref), fmt.Sprintf("(= (typ %s) %d)", m.ref, vc.tid(t.Underlying()))))
 	case *types.Chan:
 		c := v.(IntV)
